@@ -1472,8 +1472,42 @@ func (vc *VC) callsiteClauses(fr *Frame, site *ssa.Call, callee string, st *Stat
 			}
 		}
 		e.oldVars = old
-		g := vc.specBool(e, cl.Expr)
+		// a clause that mentions a local which has no value yet at this call does not apply here
+		// (it must apply somewhere: see callsiteCoverage)
+		g, applies := func() (g string, ok bool) {
+			defer func() {
+				if r := recover(); r != nil {
+					if os, isOut := r.(outsideSubset); isOut && strings.Contains(os.msg, "unbound identifier") {
+						g, ok = "", false
+						return
+					}
+					panic(r)
+				}
+			}()
+			return vc.specBool(e, cl.Expr), true
+		}()
+		if !applies {
+			continue
+		}
+		if vc.callsiteHits == nil {
+			vc.callsiteHits = map[*Clause]int{}
+		}
+		vc.callsiteHits[cl]++
 		vc.oblige(st, "callsite."+callee, cl.Raw.Label, g, site.Pos(), vc.clauseProps(c, cl))
+	}
+}
+
+// callsiteCoverage: every callsite clause applied at least once in the body.
+func (vc *VC) callsiteCoverage(c *Contract) {
+	for _, cl := range vc.clauses(c) {
+		if cl.Raw.Kind != "callsite" || vc.callsiteHits[cl] > 0 {
+			continue
+		}
+		o := &Obligation{Name: fmt.Sprintf("%s#callsite.%s.%s.applies", vc.fnName(), cl.Raw.Callee, cl.Raw.Label), Kind: "callsite", Fn: vc.fnName(), Props: vc.clauseProps(c, cl),
+			Expect: "unsat", Solver: "ground", Status: "sat", Goal: "false", Cond: "true"}
+		o.Output = "the clause never applied: no call of " + cl.Raw.Callee + " at which all the locals it mentions have a value"
+		o.Model = o.Output
+		vc.obls = append(vc.obls, o)
 	}
 }
 
